@@ -304,6 +304,26 @@ def run_chunks(ctx, prog):
         _decide(ctx, "TAB-CHUNKS", prog, key, rows)
 
 
+def run_ends(ctx, prog):
+    """first_mut / last_mut / split_first_mut / split_last_mut: std's `[T]::first_mut` etc. - None for an empty slice, else the
+    first / last element (and the rest of the slice without it)"""
+    first = ("ref", ("cidx", ("deref", S), 0, False))
+    last = ("ref", ("cidx", ("deref", S), 1, True))
+    tail = ("ref", ("subslice", ("deref", S), 1, 0, True))      # [1..]
+    init = ("ref", ("subslice", ("deref", S), 0, 1, True))      # [..len-1]
+
+    def some(exp, what):
+        def f(path):
+            return None if path.value == exp else "expected %s, got %s" % (what, sym.show(path.value))
+        return f
+    for name, exp, what in (("first_mut", table.Some(first), "Some(&mut slice[0])"),
+                            ("last_mut", table.Some(last), "Some(&mut slice[len-1])"),
+                            ("split_first_mut", table.Some(table.Tuple(first, tail)), "Some((&mut slice[0], &mut slice[1..]))"),
+                            ("split_last_mut", table.Some(table.Tuple(last, init)), "Some((&mut slice[len-1], &mut slice[..len-1]))")):
+        rows = [Row([lt(LEN, Int(1))], none, name="empty"), Row([le(Int(1), LEN)], some(exp, what), name="non-empty")]
+        _decide(ctx, "TAB-ENDS", prog, "konst::slice::slice_const_methods::" + name, rows)
+
+
 def run(ctx):
     ctx.explanation = ("decision tables of the slice getters/splitters extracted from MIR (callees inlined to raw-parts "
                        "views) compared with std's get(range)/split_at definition for every order type of (len,start,end)")
@@ -313,7 +333,9 @@ def run(ctx):
         run_elem(ctx, prog)
         run_array(ctx, prog)
         run_chunks(ctx, prog)
+        run_ends(ctx, prog)
     ctx.floor("TAB-VIEW", 14)
     ctx.floor("TAB-ELEM", 2)
+    ctx.floor("TAB-ENDS", 4)
     ctx.floor("TAB-ARRAY", 2)
     ctx.floor("TAB-CHUNKS", 2)
